@@ -843,8 +843,8 @@ def split_webs(fn) -> List[str]:
 
     counts: Dict[str, int] = {}
     for n in ast.walk(fn):
-        if isinstance(n, ast.Assign) and len(n.targets) == 1 and isinstance(n.targets[0], ast.Name):
-            counts[n.targets[0].id] = counts.get(n.targets[0].id, 0) + 1
+        if isinstance(n, ast.Name) and isinstance(n.ctx, ast.Store):
+            counts[n.id] = counts.get(n.id, 0) + 1
     cands = {k for k, v in counts.items() if v >= 2}
     if not cands:
         return []
@@ -857,11 +857,21 @@ def split_webs(fn) -> List[str]:
     done = []
     for name in sorted(cands):
         defs = [d for n in g.live for d in rd.gen[n.id] if d.name == name]
-        if any(d.kind != "assign" or d.node.kind != "stmt" or not isinstance(d.node.ast, ast.Assign) or len(d.node.ast.targets) != 1 for d in defs):
+
+        def target_name(d):
+            """the Name node that binds `name` at definition d (simple assignment or for-loop target)"""
+            if d.kind == "assign" and d.node.kind == "stmt" and isinstance(d.node.ast, ast.Assign) and len(d.node.ast.targets) == 1 and isinstance(d.node.ast.targets[0], ast.Name):
+                return d.node.ast.targets[0]
+            if d.kind == "for" and d.node.kind == "for":
+                hits = [x for x in ast.walk(d.node.ast.target) if isinstance(x, ast.Name) and x.id == name]
+                return hits[0] if len(hits) == 1 else None
+            return None
+
+        if any(target_name(d) is None for d in defs):
             continue
-        if any(_is_state(d.value) for d in defs):
+        if any(d.kind == "assign" and _is_state(d.value) for d in defs):
             continue
-        if len({id(d.node.ast) for d in defs}) != len(defs) or len(defs) != counts[name]:
+        if len({id(target_name(d)) for d in defs}) != len(defs) or len(defs) != counts[name]:
             continue  # duplicated finally bodies / dead code
         owner: Dict[int, object] = {}
         nodes: Dict[int, ast.Name] = {}
@@ -886,12 +896,12 @@ def split_webs(fn) -> List[str]:
         all_loads = [x for x in ast.walk(fn) if isinstance(x, ast.Name) and x.id == name and isinstance(x.ctx, (ast.Load, ast.Del))]
         if len(all_loads) != len(nodes):
             continue
-        order = sorted(defs, key=lambda d: (d.node.ast.lineno, d.node.ast.col_offset))
+        order = sorted(defs, key=lambda d: (target_name(d).lineno, target_name(d).col_offset))
         for k, d in enumerate(order):
             if k == 0:
                 continue
             new = f"{name}__{k + 1}"
-            d.node.ast.targets[0].id = new
+            target_name(d).id = new
             for i, dd in owner.items():
                 if dd is d:
                     nodes[i].id = new
